@@ -79,7 +79,7 @@ func classify(h histlib.History, at int, f *histlib.Fail) {
 				}
 			}
 			for j, e := range f.Earlier {
-				if prev >= 0 && j < len(f.EarlierAt) && f.EarlierAt[j] == prev && e == "wal-bound-one-sync-late-when-truncate-below-min" {
+				if prev >= 0 && j < len(f.EarlierAt) && f.EarlierAt[j] == prev && (e == "wal-bound-one-sync-late-when-truncate-below-min" || e == "wal-not-bounded-two-syncs-running") {
 					f.Sig = "wal-not-bounded-two-syncs-running"
 					return
 				}
